@@ -23,7 +23,7 @@ def binvG {β : Type} (mul : β → β → β) (inv : β → β) : List β → L
     (t2.getLast?.getD inverse) :: List.zipWith mul t1.dropLast t2.reverse.tail
 
 theorem fp2_batched_inv_eq {α : Type} (O : FpOps α) (xs : List (Fp2 α)) :
-    fp2_batched_inv O xs = binvG (fp2_mul O) (fp2_inv O) xs := by
+    fp2_batched_inv_core O xs = binvG (fp2_mul O) (fp2_inv O) xs := by
   cases xs <;> rfl
 
 section rel
@@ -202,10 +202,10 @@ variable {p : Nat} [Fact p.Prime] {α : Type} {O : FpOps α} {dom : α → Prop}
 variable (h : FpRefines O p dom val)
 include h
 
-/-- **`fp2_batched_inv` = element-wise inversion**, every length, all entries non-zero: the output has
+/-- the product chain of `fp2_batched_inv` = element-wise inversion, every length, all entries non-zero: the output has
     the same length, stays in the domain, and `out[i] · x[i] = 1` in `Fp[i]`. -/
-theorem fp2_batched_inv_spec (xs : List (Fp2 α)) (hd : ∀ x ∈ xs, dom2 dom x) (hnz : ∀ x ∈ xs, val2 val x ≠ 0) :
-    Forall₂ (fun out x => dom2 dom out ∧ val2 val out * val2 val x = 1) (fp2_batched_inv O xs) xs := by
+theorem fp2_batched_inv_core_spec (xs : List (Fp2 α)) (hd : ∀ x ∈ xs, dom2 dom x) (hnz : ∀ x ∈ xs, val2 val x ≠ 0) :
+    Forall₂ (fun out x => dom2 dom out ∧ val2 val out * val2 val x = 1) (fp2_batched_inv_core O xs) xs := by
   have := nonres_fact h.p4
   let R : Fp2 α → CF p → Prop := fun a z => dom2 dom a ∧ val2 val a = z
   have hf : ∀ a z x w, R a z → R x w → R (fp2_mul O a x) (z * w) := by
@@ -228,7 +228,7 @@ theorem fp2_batched_inv_spec (xs : List (Fp2 α)) (hd : ∀ x ∈ xs, dom2 dom x
       intro z hz
       obtain ⟨x, hx, rfl⟩ := List.mem_map.mp hz
       exact hnz x hx)
-  have hout' : Forall₂ R (fp2_batched_inv O xs) ((xs.map (val2 val)).map (·⁻¹)) := by
+  have hout' : Forall₂ R (fp2_batched_inv_core O xs) ((xs.map (val2 val)).map (·⁻¹)) := by
     rw [← hfield]; exact hout
   rw [List.map_map, forall₂_map_right_iff] at hout'
   -- attach the non-zero hypothesis to the right-hand list
@@ -244,6 +244,80 @@ theorem fp2_batched_inv_spec (xs : List (Fp2 α)) (hd : ∀ x ∈ xs, dom2 dom x
       rw [this]
       exact inv_mul_cancel₀ (hys b (by simp))
   exact key _ _ hnz hout'
+
+theorem fp2_is_zero_cases {x : Fp2 α} (hx : dom2 dom x) :
+    (fp2_is_zero O x = T32 ∧ val2 val x = 0) ∨ (fp2_is_zero O x = 0 ∧ val2 val x ≠ 0) := by
+  have := nonres_fact h.p4
+  unfold fp2_is_zero
+  rcases h.isZero hx.1 with ⟨a1, a2⟩ | ⟨a1, a2⟩ <;> rcases h.isZero hx.2 with ⟨b1, b2⟩ | ⟨b1, b2⟩
+  · left; rw [a1, b1]; exact ⟨by decide, (val2_eq_zero_iff h).mpr ⟨a2, b2⟩⟩
+  · right; rw [a1, b1]; exact ⟨by decide, fun h0 => b2 ((val2_eq_zero_iff h).mp h0).2⟩
+  · right; rw [a1, b1]; exact ⟨by decide, fun h0 => a2 ((val2_eq_zero_iff h).mp h0).1⟩
+  · right; rw [a1, b1]; exact ⟨by decide, fun h0 => a2 ((val2_eq_zero_iff h).mp h0).1⟩
+
+theorem fp2_select_cases {a b : Fp2 α} (ha : dom2 dom a) (hb : dom2 dom b) :
+    fp2_select O a b 0 = a ∧ fp2_select O a b T32 = b := by
+  obtain ⟨r0, r1⟩ := h.select ha.1 hb.1
+  obtain ⟨i0, i1⟩ := h.select ha.2 hb.2
+  unfold fp2_select
+  exact ⟨by rw [r0, i0], by rw [r1, i1]⟩
+
+/-- **`fp2_batched_inv` = element-wise inversion, FULL strength**: every length, every batch in the domain (zero entries
+    included): the output has the same length, stays in the domain, and `out[i] = x[i]⁻¹` in `Fp[i]` (with `0⁻¹ = 0`, the
+    convention of `fp2_inv`). -/
+theorem fp2_batched_inv_spec (xs : List (Fp2 α)) (hd : ∀ x ∈ xs, dom2 dom x) :
+    Forall₂ (fun out x => dom2 dom out ∧ val2 val out = (val2 val x)⁻¹) (fp2_batched_inv O xs) xs := by
+  have := nonres_fact h.p4
+  obtain ⟨d1, v1⟩ := fp2_set_one_spec h
+  obtain ⟨d0, v0⟩ := fp2_set_zero_spec h
+  unfold fp2_batched_inv
+  simp only [List.zipWith_map_right]
+  -- the batch with the zero entries replaced by one
+  have hxs' : List.zipWith (fun x b => fp2_select O x (fp2_set_one O) (fp2_is_zero O b)) xs xs =
+      xs.map (fun x => fp2_select O x (fp2_set_one O) (fp2_is_zero O x)) := List.zipWith_self
+  rw [hxs']
+  set g : Fp2 α → Fp2 α := fun x => fp2_select O x (fp2_set_one O) (fp2_is_zero O x) with hg
+  have hgd : ∀ x ∈ xs.map g, dom2 dom x := by
+    intro y hy
+    obtain ⟨x, hx, rfl⟩ := List.mem_map.mp hy
+    have dx := hd x hx
+    obtain ⟨s0, s1⟩ := fp2_select_cases h dx d1
+    rcases fp2_is_zero_cases h dx with ⟨e, _⟩ | ⟨e, _⟩
+    · show dom2 dom (fp2_select O x (fp2_set_one O) (fp2_is_zero O x)); rw [e, s1]; exact d1
+    · show dom2 dom (fp2_select O x (fp2_set_one O) (fp2_is_zero O x)); rw [e, s0]; exact dx
+  have hgnz : ∀ x ∈ xs.map g, val2 val x ≠ 0 := by
+    intro y hy
+    obtain ⟨x, hx, rfl⟩ := List.mem_map.mp hy
+    have dx := hd x hx
+    obtain ⟨s0, s1⟩ := fp2_select_cases h dx d1
+    rcases fp2_is_zero_cases h dx with ⟨e, _⟩ | ⟨e, e'⟩
+    · show val2 val (fp2_select O x (fp2_set_one O) (fp2_is_zero O x)) ≠ 0; rw [e, s1, v1]; exact one_ne_zero
+    · show val2 val (fp2_select O x (fp2_set_one O) (fp2_is_zero O x)) ≠ 0; rw [e, s0]; exact e'
+  have hcore := fp2_batched_inv_core_spec h (xs.map g) hgd hgnz
+  rw [forall₂_map_right_iff] at hcore
+  -- put the zeros back
+  have key : ∀ (l : List (Fp2 α)) (ys : List (Fp2 α)), (∀ x ∈ ys, dom2 dom x) →
+      Forall₂ (fun out x => dom2 dom out ∧ val2 val out * val2 val (g x) = 1) l ys →
+      Forall₂ (fun out x => dom2 dom out ∧ val2 val out = (val2 val x)⁻¹)
+        (List.zipWith (fun y b => fp2_select O y (fp2_set_zero O) (fp2_is_zero O b)) l ys) ys := by
+    intro l ys hys hl
+    induction hl with
+    | nil => exact Forall₂.nil
+    | @cons a b l' ys' hab _ ih =>
+      have db := hys b (by simp)
+      refine Forall₂.cons ?_ (ih (fun x hx => hys x (by simp [hx])))
+      obtain ⟨s0, s1⟩ := fp2_select_cases h hab.1 d0
+      obtain ⟨t0, t1⟩ := fp2_select_cases h db d1
+      beta_reduce
+      rcases fp2_is_zero_cases h db with ⟨e, e'⟩ | ⟨e, e'⟩
+      · rw [e, s1]; exact ⟨d0, by rw [v0, e', inv_zero]⟩
+      · rw [e, s0]
+        refine ⟨hab.1, ?_⟩
+        have hgb : g b = b := by show fp2_select O b (fp2_set_one O) (fp2_is_zero O b) = b; rw [e, t0]
+        have hm := hab.2
+        rw [hgb] at hm
+        exact eq_inv_of_mul_eq_one_left hm
+  exact key _ _ hd hcore
 
 /-- value of the exponent words, least significant first -/
 def evalWords : List Nat → Nat
